@@ -13,10 +13,16 @@ SPEC = {
     ],
     "floors": {
         "quick": {"hist_removal_between_collections": 300, "hist_readers_mixed_temporality": 300,
-                  "hist_non_monotone_script": 200, "race_runs_removal_interleaved_with_invocations": 50},
+                  "hist_non_monotone_script": 200, "race_runs_removal_interleaved_with_invocations": 50,
+                  "hist_starved_reader": 120, "starved_reader_delta_points_checked": 150,
+                  "starved_reader_cumulative_points_checked": 150,
+                  "hist_gauge_repeated_observe": 200, "gauge_points_checked_repeated_observe": 2000},
         "thorough": {"hist_removal_between_collections": 15000, "hist_readers_mixed_temporality": 15000,
                      "hist_non_monotone_script": 15000, "race_runs_removal_interleaved_with_invocations": 3000,
-                     "sync_gauge_points_checked_fresh": 100000},
+                     "sync_gauge_points_checked_fresh": 100000,
+                     "hist_starved_reader": 10000, "starved_reader_delta_points_checked": 10000,
+                     "starved_reader_cumulative_points_checked": 10000,
+                     "hist_gauge_repeated_observe": 15000, "gauge_points_checked_repeated_observe": 150000},
     },
     "engine": "E1 model-oracle",
     "engines_used": ("E1 model-oracle", "E2 history"),
@@ -28,12 +34,15 @@ SPEC = {
                    "readers of mixed temporality over observable counters, up-down counters and gauges (int64 and "
                    "double); after every collection the invocation count of every callback (exactly once if registered, "
                    "never otherwise) and every point (cumulative = reported total, delta = total minus what that same "
-                   "reader was last given, gauge = value observed in this collection) are compared with the model. Right "
+                   "reader was last given, gauge = value observed in this collection - the most recent one when a "
+                   "callback observes a set several times in one invocation) are compared with the model; every ~8th "
+                   "history is directed: one reader collects 34..60 times in a row while the others do not, then they do. Right "
                    "level because the property quantifies over histories and configurations of a stateful pipeline and "
                    "the scripts make both counts and values decidable."),
     "level_note": ("trusts the model in vf/include/vf_metrics_model.h and harness/c17_observables.cc, gcc ASan/UBSan/TSan; "
                    "covers only generated histories (<=100 steps, <=3 instruments, <=3 callbacks each, <=6 attribute sets, "
-                   "<=3 readers); the synchronous Gauge is only reached in the thorough tier (ABI v2 build); values are not "
+                   "<=3 readers, a reader lags at most 60 collections behind another); sum points for a set that one "
+                   "invocation observed more than once are not judged; the synchronous Gauge is only reached in the thorough tier (ABI v2 build); values are not "
                    "judged in the racing run. Mutation self-test (scratch worktree): 10/10 breaking edits exit 1 - Observe "
                    "only for the first reader, Observe once per storage, RemoveCallback comparing the function pointer "
                    "only, delta stashed only for the calling reader (delta against another reader's last value), "
@@ -43,9 +52,16 @@ SPEC = {
              "1..3 observable instruments of kind counter|up-down counter|gauge x int64|double, 1..3 callbacks per "
              "instrument on disjoint attribute sets, registered with one of two C functions so that several callbacks "
              "share a function pointer and differ only in state; each callback carries a script of 160 reports in which "
-             "each owned set is present with probability 0.85 and totals are monotone or not) and a history of 5..100 "
+             "each owned set is present with probability 0.85 and totals are monotone or not; one callback in three is a "
+             "'replaying' callback that, for a reported set, with probability 1/3 first observes 1..2 different decoy values "
+             "for the same set - own key order, overload and buffers - and then the scripted value) and a history of 5..100 "
              "steps over {AddCallback, RemoveCallback, RemoveCallback of something not registered, destroy instrument, "
-             "Collect(reader)} followed by one collection per reader. The system clock is made to advance between two "
+             "Collect(reader)} followed by one collection per reader. One case in eight (decided by the case seed) is a "
+             "starved-reader history instead: >=2 readers, instrument 0 a counter or up-down counter that is not destroyed, "
+             "0..15 random steps, then one reader collects 34..60 times in a row (an AddCallback/RemoveCallback in about "
+             "every 12th gap) while the other readers - marked starved in the configuration - do not collect, then each "
+             "starved reader collects, then 0..15 random steps; hist_starved_reader counts those in which a starved "
+             "reader's collection after the burst had a judged sum point. The system clock is made to advance between two "
              "observations the model orders. Non-trivial = more collections than readers; distinct = hash of the "
              "operation sequence. Racing case = 1..2 collecting readers, 1..2 threads adding/removing their own callbacks "
              "20..120 times and possibly destroying an instrument, stable callbacks counted against the number of "
@@ -54,6 +70,8 @@ SPEC = {
     "assumptions": ASSUME_COMMON + [
         "points for attribute sets that the callback did not report in that very collection (sets that disappeared from a script, removed callbacks, destroyed instruments) are don't-care; a delta reader's catch-up point for such a set is added to what that reader 'was last given'",
         "totals of an observable Counter are kept non-negative (they may decrease); NaN/inf are not reported",
+        "when one callback invocation observes the same attribute set more than once, an observable gauge must report the most recent of these values (the statement says so; key class suffix ':repeated-observe-in-one-invocation'); for observable counters / up-down counters 'the reported total' is then not unique (the OpenTelemetry API leaves duplicate observations unspecified; other SDKs keep the first) and the sum point is don't-care: counted, never judged, a delta reader's point is added to what that reader 'was last given'",
+        "the violation class is <instrument kind>/<single|multi>-reader-<delta|cumulative>, followed by ':starved-reader' for the readers that the configuration of a starved-reader history keeps from collecting during the burst",
         "callbacks on one instrument report disjoint attribute sets; the same (function, state) pair is never registered twice at the same time",
         "exact classes (int64, doubles that are multiples of 2^-10) are compared exactly; arbitrary doubles with 1e-9 relative to the magnitudes that went through the SDK's arithmetic; gauge values are compared exactly (no arithmetic)",
         "system_clock is assumed not to step backwards during a case; the harness waits for it to advance between ordered observations (clock-tie independence)",
